@@ -169,6 +169,8 @@ PipelineVerdict(post, children) ==
     \cup V(FailAt >= 0 => {stages[i].tag : i \in 1..Len(stages)} = ExpectedTags /\ nforks = FailAt + 1, "C14_no_later_stage_started")
     \cup V(FailAt >= 0 => ~(Hung /\ HangExplained), "C14_returns_promptly")
     \cup V(FailAt >= 0 /\ ~det => children = "none", "C14_no_child_left_behind")
+    \* (C12 says the same of every child a handle -- here the pipeline being started -- has started)
+    \cup V(FailAt >= 0 /\ ~det => children = "none", "C12_children_of_failed_pipeline_reaped")
     \cup V(FailAt >= 0 => clean, "C14_no_descriptor_left_open")
     \* ---- C13: a pipeline that starts
     \cup V(FailAt < 0 => res.ok, "C13_starts")
